@@ -69,8 +69,9 @@ class Kernel:
         self.p = float(knobs.get("p", 0.1))
         self.policy = knobs.get("policy", "random")
         self.victim = knobs.get("victim")  # tid starved under policy 'starve'
+        self.starve_until = int(knobs.get("starve_until", 30000))  # starvation is long, not eternal
         self.pct_points = set(knobs.get("pct_points", ()))
-        self.max_steps = int(knobs.get("max_steps", 400_000))
+        self.max_steps = int(knobs.get("max_steps", 300_000))
         self.max_time = float(knobs.get("max_time", 120.0))
         self.clock_seed = int(knobs.get("clock_seed", seed)) & 0xFFFFFFFF
         self.tick = bool(knobs.get("tick", True))
@@ -94,7 +95,7 @@ class Kernel:
         self.main = None
         self.full = [] if knobs.get("full_trace") else None
         self.run_len = 0  # consecutive traced lines by one thread without a switch
-        self.force_every = int(knobs.get("force_every", 2500))  # models the GIL switch interval
+        self.force_every = int(knobs.get("force_every", 400))  # models the GIL switch interval
 
     # ------------------------------------------------------------------ registry
     def register_current(self, name, kind="thread"):
@@ -213,7 +214,7 @@ class Kernel:
             return default
         pol = self.policy
         pool = cands
-        if pol == "starve" and self.victim is not None and len(cands) > 1:
+        if pol == "starve" and self.victim is not None and len(cands) > 1 and self.d < self.starve_until:
             pool = [r for r in cands if r.tid != self.victim] or cands
         if preempting:
             others = [r for r in pool if r is not me]
@@ -795,4 +796,34 @@ def rebind_module_names(module, **names):
         if nm in module.__dict__:
             setattr(module, nm, val)
             done.append(nm)
+    return done
+
+
+_REAL_LOCK_T = type(_thread.allocate_lock())
+_REAL_RLOCK_T = type(threading.RLock())
+
+
+def rebind_locks(module):
+    """Replace module-level (and class-level) real lock objects by simulated ones.
+
+    A real lock held across a pre-emption point would block a baton holder for real."""
+    done = []
+    spaces = [module.__dict__]
+    for v in list(module.__dict__.values()):
+        if isinstance(v, type) and v.__module__ == module.__name__:
+            spaces.append(v)
+    for sp in spaces:
+        items = list(sp.items()) if isinstance(sp, dict) else list(vars(sp).items())
+        for name, val in items:
+            new = None
+            if type(val) is _REAL_LOCK_T:
+                new = SimLock()
+            elif type(val) is _REAL_RLOCK_T:
+                new = SimRLock()
+            if new is not None:
+                if isinstance(sp, dict):
+                    sp[name] = new
+                else:
+                    setattr(sp, name, new)
+                done.append(name)
     return done
